@@ -82,3 +82,13 @@ PREDICATES = {"KF-D18": kf_d18, "KF-D14": kf_d14, "KF-D20": kf_d20}
 
 def classify_c05(hist, verdict):
     return []
+
+
+def matches(kid, history, verdict):
+    """Does the verdict on this history belong to known finding `kid`? (used for the witnesses that are replayed on every run)"""
+    if kid == "KF-D22":
+        return verdict.get("rule") == "DecayMonotoneLag"
+    fn = PREDICATES.get(kid)
+    if fn is None:
+        return False
+    return bool(fn(history.get("cfg", {}), history.get("ops", [])[:verdict.get("i", 0)], verdict))
